@@ -7,6 +7,7 @@ import CliUtils.Drv.C17
 import CliUtils.Drv.C14
 import CliUtils.Drv.Sys
 import CliUtils.Drv.Status
+import CliUtils.Drv.C16
 /-
   Line-protocol driver.  stdin: one JSON object per line  {"d": domain, "i": input, "o": implementation output}
   stdout: one line per case that needs attention, then one summary line.
@@ -39,7 +40,10 @@ def handlers : List (String × Handler) := [
   ("status-c08", KS.handleStatusC08),
   ("status-malformed", KS.handleMalformed),
   ("augment", KS.handleAugment),
-  ("kubectl", KS.handleKubectl)
+  ("kubectl", KS.handleKubectl),
+  ("funnel", C16.handleFunnel),
+  ("watcher", C16.handleWatcher),
+  ("watcher-fatal", C16.handleFatal)
 ]
 
 structure Stats where
